@@ -14,6 +14,7 @@
 
 import base64
 import binascii
+import copy
 import io
 import re
 import time
@@ -263,7 +264,9 @@ class Magnet():
         if self.xl:
             torrent._metainfo['info']['length'] = self.xl
         if hasattr(self, '_info'):
-            torrent.metainfo['info'] = self._info
+            # Don't let changes to the returned torrent change the metadata
+            # we got from get_info()
+            torrent.metainfo['info'] = copy.deepcopy(self._info)
         else:
             torrent._infohash = self._infohash_as_base16()
         return torrent
